@@ -1,4 +1,5 @@
 import Peppi.Tar
+import Peppi.JsonText
 import Peppi.Lemmas.PeppiRound
 /-! `.slpp` at byte level: `tar` framing (proved, `Tar.lean`) around the entries of `io/peppi/ser.rs`, whose JSON and Arrow
     contents are produced and consumed by external crates.  Those crates enter as a `Codec`: functions with the one law each
@@ -267,4 +268,20 @@ def toyCodec : Codec Bytes where
   meta_rt m := by cases m <;> rfl
   frames_rt f := rfl
 
+end Peppi
+
+namespace Peppi
+/-- any codec with its metadata part replaced by the JSON text model (`JsonText.lean`): the `meta_rt` law is then a theorem
+    (`parseMeta_json`), not an assumption -/
+def Codec.withJsonMeta (C : Codec KVs) : Codec KVs :=
+  { C with encMeta := jsonMeta, decMeta := parseMeta, meta_rt := parseMeta_json }
+
+/-- the byte-level round trip with the metadata entry as real JSON text -/
+theorem slppRead_written_json (C : Codec KVs) (T : TextOracle) (g : PGame KVs) (startBytes : Bytes) (endBytes : Option Bytes)
+    (hstart : gameStart T startBytes = .ok g.start)
+    (hend : endBytes.map gameEnd = g.fend.map Res.ok)
+    (hgecko : ∀ c, g.gecko = some c → c.2 < 2 ^ 32)
+    (hs : SizesOK C.withJsonMeta g startBytes endBytes) (skip : Bool) :
+    slppRead C.withJsonMeta T skip (slppWrite C.withJsonMeta g startBytes endBytes) = .ok (if skip then { g with frames := none } else g) :=
+  slppRead_written C.withJsonMeta T g startBytes endBytes hstart hend hgecko hs skip
 end Peppi
